@@ -117,6 +117,10 @@ func (fs *ChrootFs) Rename(oldname, newname string) error {
 		if err != nil {
 			return err
 		}
+		// the target of a rename must stay inside the root as well
+		if err := fs.openAllowed(newFile); err != nil {
+			return err
+		}
 		return fs.fs.Rename(fixedPath, newFile)
 	})
 }
